@@ -440,6 +440,30 @@ func (f *Frame) applyContract(ins ssa.Instruction, c *Contract, ct *callTarget, 
 	ms := newModSet()
 	f.eng.contractMods(c, ct.fn, ms)
 	f.applyModSet(st, pre, ms, c.Func)
+	// writes <param>: the object the parameter points to is overwritten (only that object)
+	for _, w := range c.Writes {
+		sv, ok := env.names[w]
+		if !ok || sv.typ == nil {
+			f.eng.specError(c.Func, &Clause{Kind: "writes", Label: w}, fmt.Errorf("unknown parameter"))
+			continue
+		}
+		et := derefType(sv.typ)
+		ptr := sv.t
+		if et == nil && isInterface(sv.typ) && strings.HasPrefix(sv.t.Op, "@box$") {
+			// destination passed as interface{}: the boxed pointer's pointee is overwritten
+			if bt, ok := f.eng.boxTypes[sv.t.Op[1:]]; ok {
+				et = derefType(bt)
+				ptr = sv.t.Args[0]
+			}
+		}
+		if et == nil {
+			f.note("writes " + w + ": destination of unknown dynamic type, effect not modelled")
+			continue
+		}
+		sv.t = ptr
+		nv := f.havocTyped(st, et, "wr_"+w).(*Term)
+		st.store(&Addr{ref: sv.t, base: et, typ: et}, nv)
+	}
 	res := f.havocTyped(st, resType, "r_"+lastName(ct.display))
 	if c.Flags["fresh"] {
 		if t, ok := res.(*Term); ok && isPointerLike(resType) {
